@@ -2012,6 +2012,7 @@ impl TypeCheckVisitor<'_> {
                 }
             }
 
+            let mut fields_match = true;
             for (sym, expr_pos, ty) in field_tys {
                 let Some((field_pos, field_decl_ty)) = sym_to_expected_ty.get(&sym.name) else {
                     continue;
@@ -2021,6 +2022,8 @@ impl TypeCheckVisitor<'_> {
 
                 let field_ty = substitute_ty_vars(field_decl_ty, &ty_var_env);
                 if !is_subtype(&ty, &field_ty) {
+                    fields_match = false;
+
                     let mut message_parts = vec![msgtext!("Expected ")];
                     message_parts.extend_from_slice(&field_ty.as_message_parts());
                     message_parts.push(msgtext!(" for this field but got "));
@@ -2037,10 +2040,29 @@ impl TypeCheckVisitor<'_> {
                 }
             }
 
+            // The type arguments are the solved type parameters, so
+            // `Box{ value: 1 }` has type `Box<Int>`. If a field had the
+            // wrong type, we don't know which field the user intended,
+            // so leave the arguments out to avoid a second error.
+            let args = if fields_match {
+                struct_info
+                    .type_params
+                    .iter()
+                    .map(|type_param| {
+                        substitute_ty_vars(
+                            &Type::TypeParameter(type_param.name.clone()),
+                            &ty_var_env,
+                        )
+                    })
+                    .collect()
+            } else {
+                vec![]
+            };
+
             Type::UserDefined {
                 kind: TypeDefKind::Struct,
                 name: name_sym.name.clone(),
-                args: vec![],
+                args,
             }
         } else {
             Type::Error {
